@@ -106,7 +106,9 @@ class Session:
         self.events = [{"ev": "reset"}]
         self.stderr = []
         self.alive = True
-        threading.Thread(target=self._reader, daemon=True).start()
+        self.stop_reader = False
+        self.reader = threading.Thread(target=self._reader, daemon=True)
+        self.reader.start()
         threading.Thread(target=self._err_reader, daemon=True).start()
 
     def now(self):
@@ -115,9 +117,20 @@ class Session:
     def _reader(self):
         # chunked reads (a byte-wise readline would fall behind when the engine prints hundreds of info lines and
         # stamp the lines late); every line of a chunk gets the arrival time of that chunk
+        import select
         fd = self.p.stdout.fileno()
         buf = b""
         while True:
+            # poll with a short timeout so that the reader is never parked inside read() when the driver wants to close
+            # its end of the pipe (a blocked read would keep the pipe alive until the next line arrives)
+            if self.stop_reader:
+                break
+            try:
+                ready, _, _ = select.select([fd], [], [], 0.02)
+            except (OSError, ValueError):
+                break
+            if not ready:
+                continue
             try:
                 chunk = os.read(fd, 65536)
             except OSError:
@@ -209,6 +222,8 @@ class Session:
     def gui_gone(self):
         """The GUI disappears: the engine's standard input ends AND nobody reads its output any more."""
         self.events.append({"ev": "eofin", "t": self.now(), "stdout_closed": True})
+        self.stop_reader = True
+        self.reader.join(1.0)
         for f in (self.p.stdin, self.p.stdout):
             try:
                 f.close()
@@ -300,6 +315,8 @@ def run_script(binary, steps, trace_path=None, drain_ms=20, prefix=None, cwd=Non
         elif do == "close_stdout":
             # the GUI stops reading (its end of the output pipe is closed) but keeps the input open for now
             s.events.append({"ev": "note", "t": s.now(), "what": "stdout closed by the reader"})
+            s.stop_reader = True
+            s.reader.join(1.0)
             try:
                 s.p.stdout.close()
             except OSError:
